@@ -243,6 +243,31 @@ func localNameDefs() []struct {
 	return out
 }
 
+// sameConstDefs: two parsable traits whose cells on one line are the SAME constant for a switch on `any`
+// although they are written differently - an untyped string next to a conversion to the builtin string
+// type, an untyped integer next to int(..): the Parse case must list the constant once (round 8, C13-81).
+func sameConstDefs() []struct {
+	E        *EnumSpec
+	Parsable []string
+} {
+	type sp = struct {
+		E        *EnumSpec
+		Parsable []string
+	}
+	var out []sp
+	e := withTraits(plainEnum("parsable_same_constant_untyped_and_builtin_string", "int", 3), "ustring", "tstringb")
+	for i := range e.Lines {
+		e.Lines[i].Cells = []string{fmt.Sprintf("%q", fmt.Sprintf("r%d", i)), fmt.Sprintf("string(%q)", fmt.Sprintf("r%d", i))}
+	}
+	out = append(out, sp{e, []string{traitName(e.Traits[0]), traitName(e.Traits[1])}})
+	e = withTraits(plainEnum("parsable_same_constant_untyped_and_builtin_int", "int", 3), "uint", "uint")
+	for i := range e.Lines {
+		e.Lines[i].Cells = []string{fmt.Sprint(40 + i), fmt.Sprintf("int(%d)", 40+i)}
+	}
+	out = append(out, sp{e, []string{traitName(e.Traits[0]), traitName(e.Traits[1])}})
+	return out
+}
+
 func ciCollision() *EnumSpec {
 	e := plainEnum("names_differ_only_by_case", "int", 0)
 	e.Lines = []EnumLine{{Name: "Red", Value: "0"}, {Name: "RED", Value: "1"}, {Name: "Blue", Value: "2"}}
@@ -641,6 +666,9 @@ func quickSpecs(r *rand.Rand) []*Spec {
 		if i%2 == 0 {
 			add("imports", e, withParsable(settings[r.IntN(32)], []string{traitName(e.Traits[0])}))
 		}
+	}
+	for _, sp := range sameConstDefs() {
+		add("special", sp.E, withParsable(defaultOpts(), sp.Parsable))
 	}
 	// constants named like the locals of the current template: every one with -caseInsensitive and all
 	// codecs (the largest set of emitted scopes), a rotating third also at the default setting
